@@ -90,9 +90,68 @@ func c36GenSrc(t *rapid.T) (kind, src string, seedW int) {
 		return "grammar", c35Doc(t), 0
 	case k < 17:
 		return "lookalike", c36Lookalike(t), 0
+	case k < 18:
+		return "fences", c36Fences(t), 0
 	default:
 		return "soup", c35Soup(t), 0
 	}
+}
+
+// c36Fences: fenced code blocks for which the formatter has to choose the fence
+// itself: info strings with a backquote (only a tilde fence can carry them) or
+// with tildes, and content lines that are runs of backquotes or tildes shorter
+// than, as long as and longer than the opening fence.
+func c36Fences(t *rapid.T) string {
+	ch := rapid.SampledFrom([]string{"`", "~", "~"}).Draw(t, "fencechar")
+	n := rapid.IntRange(3, 6).Draw(t, "fencelen")
+	info := rapid.SampledFrom([]string{"", "", "go", "a`b", "`", "x ``` y", "a``", "a~b", "~", "~~~", "a ~~~~ b", "é", "a\\`b", "&#96;"}).Draw(t, "info")
+	if strings.Contains(info, "`") {
+		ch = "~"
+	}
+	prefix := rapid.SampledFrom([]string{"", "", "", "> ", "- ", "1. "}).Draw(t, "container")
+	cont := strings.Repeat(" ", len(prefix))
+	if prefix == "> " {
+		cont = "> "
+	}
+	var sb strings.Builder
+	sb.WriteString(prefix + strings.Repeat(ch, n))
+	if info != "" {
+		sb.WriteString(rapid.SampledFrom([]string{" ", "", "  "}).Draw(t, "infosp") + info)
+	}
+	sb.WriteString("\n")
+	for i, k := 0, rapid.IntRange(0, 4).Draw(t, "ncontent"); i < k; i++ {
+		var l string
+		switch rapid.IntRange(0, 5).Draw(t, "line") {
+		case 0:
+			l = "code"
+		case 1:
+			l = ""
+		default:
+			// never a valid closing fence of the block being written: shorter than
+			// the opening, of the other character, or followed by text
+			rc := rapid.SampledFrom([]string{"`", "~"}).Draw(t, "runchar")
+			rl := rapid.IntRange(1, 7).Draw(t, "runlen")
+			l = strings.Repeat(rc, rl)
+			if rc == ch && rl >= n {
+				l += rapid.SampledFrom([]string{" x", "x", " " + rc}).Draw(t, "after")
+			} else if rapid.IntRange(0, 3).Draw(t, "after?") == 0 {
+				l += " y"
+			}
+			l = rapid.SampledFrom([]string{"", "", " ", "   ", "    "}).Draw(t, "lineindent") + l
+		}
+		if l == "" {
+			sb.WriteString(strings.TrimRight(cont, " ") + "\n")
+		} else {
+			sb.WriteString(cont + l + "\n")
+		}
+	}
+	if rapid.IntRange(0, 4).Draw(t, "closed") > 0 {
+		sb.WriteString(cont + strings.Repeat(ch, n+rapid.IntRange(0, 2).Draw(t, "closeextra")) + "\n")
+	}
+	if rapid.Bool().Draw(t, "tail") {
+		sb.WriteString("\ntail\n")
+	}
+	return sb.String()
 }
 
 // c36Lookalike: paragraphs (optionally inside a quote or list item) whose
@@ -373,6 +432,8 @@ func init() {
 			{Key: "C36:indented-html-block-absorbed-by-short-marker-item", Case: c36Case{Kind: "known", Src: "  -\n     <b>\n\n   <c>\n"}},
 			{Key: "C36:heading-attribute-lookalike-unescaped", Case: c36Case{Kind: "known", Src: "# a \\{#x}"}},
 			{Key: "C36:heading-attribute-lookalike-unescaped", Case: c36Case{Kind: "known", Src: "# `a {`b}"}},
+			{Key: "C36:del-in-link-destination-written-bare", Case: c36Case{Kind: "known", Src: "[a](<x\x7fy>)"}},
+			{Key: "C36:del-in-link-destination-written-bare", Case: c36Case{Kind: "known", Src: "![a](<\x7f> \"t\")"}},
 		},
 	})
 	vs.Register(vs.Prop[c36Case]{
